@@ -163,6 +163,14 @@ def call_with_timeout(fn, args, kwargs):
         signal.signal(signal.SIGALRM, old)
 
 
+def _uninstall(env, installed):
+    for x in installed:
+        if isinstance(x, tuple):
+            setattr(x[0], x[1], x[2])
+        else:
+            delattr(env["self"], x)
+
+
 def check_call(fq, args, kwargs=None, contract=None, fn=None):
     """Run the real function on args under its contract.
 
@@ -258,14 +266,32 @@ def check_call(fq, args, kwargs=None, contract=None, fn=None):
             return w
         for cfq, evn in c["callee_events"].items():
             mname = cfq.rsplit(".", 1)[-1]
+            with_recv = isinstance(evn, dict) and evn.get("with_receiver")
             evn = evn["name"] if isinstance(evn, dict) else evn
-            setattr(env["self"], mname, _rec(evn, getattr(env["self"], mname)))
-            installed.append(mname)
+            if with_recv:
+                # a method of OTHER objects (the entries' containers ...): patched on its class for the duration of
+                # the call, the receiver is part of the record
+                cls = resolve(cfq.rsplit(".", 1)[0])
+                orig = cls.__dict__[mname]
+
+                def _mk(name, orig):
+                    def w(self_, *a, **k):
+                        specfuns._trace_add((name, self_) + tuple(a) + tuple(k.values()))
+                        depth[0] += 1
+                        try:
+                            return orig(self_, *a, **k)
+                        finally:
+                            depth[0] -= 1
+                    return w
+                setattr(cls, mname, _mk(evn, orig))
+                installed.append((cls, mname, orig))
+            else:
+                setattr(env["self"], mname, _rec(evn, getattr(env["self"], mname)))
+                installed.append(mname)
     try:
         result = call_with_timeout(fn, ba.args, ba.kwargs)
     except CallTimeout:
-        for mname in installed:
-            delattr(env["self"], mname)
+        _uninstall(env, installed)
         installed = []
         return {"status": "fail", "observed": "no return within %gs" % CALL_TIMEOUT_S, "timeout": True,
                 "failures": [("termination", "the call did not return within %gs (non-termination?)" % CALL_TIMEOUT_S)]}
@@ -273,8 +299,7 @@ def check_call(fq, args, kwargs=None, contract=None, fn=None):
         raised = e
     except Exception as e:  # noqa
         raised = e
-    for mname in installed:
-        delattr(env["self"], mname)
+    _uninstall(env, installed)
     if raised is not None:
         name = type(raised).__name__
         full = type(raised).__module__ + "." + name
